@@ -30,6 +30,13 @@ pub enum Diff {
 }
 
 pub fn differential(prog: &Program, o: &DiffOpts) -> Diff {
+    if let Err(e) = prog.validate() {
+        // a generator produced a tree the grammar cannot express: my bug, counted, must be 0
+        if std::env::var_os("VCHECK_DEBUG_MISMATCH").is_some() {
+            eprintln!("INEXPRESSIBLE {}", e);
+        }
+        return Diff::Discard(format!("generator_bug:{}", e));
+    }
     let src = render(prog, o.spelling, o.render).text;
     // reference first: programs outside the budget are never shown to rrss
     let m = model::run(prog, o.stdin, Scoping::Dynamic, o.lim);
